@@ -575,9 +575,12 @@ def gn(i):
     return "g%d" % i
 
 
+VAL_SEED = 0  # set from the case: instantiates "some non-zero value" differently per VERIF_SEED
+
+
 def val(i, j):
     """Non-zero value in [-199, 199], a function of the rule coordinates (rows i, i' differ for i != i')."""
-    v = 1 + (i * 131 + j * 17 + (i // 199) * (j + 1) * 5) % 199
+    v = 1 + (i * 131 + j * 17 + (i // 199) * (j + 1) * 5 + VAL_SEED * 29) % 199
     return -v if (i + j) % 2 else v
 
 
@@ -1043,7 +1046,7 @@ class Overflow(Unit):
             for lv in levels:
                 out.append(["pairpos1", dict(n=100, m=166), "False", lv, 0, None])
                 out.append(["pairpos2", dict(c1=247, c2=64, G=4), "False" if lv % 2 else "None", lv, 0, None])
-        return out
+        return [c + [seed] for c in out]
 
     def bounds(self, tier, seed):
         return {"host_glyphs": NG, "primary": [[p["fam"], p["base"], p["knob"], self.sizes(p, tier)] for p in PRIMARY],
@@ -1070,7 +1073,8 @@ class Overflow(Unit):
         return bad, n
 
     def check(self, case, rec):
-        fam, kn, hbc, level, ext, side = case
+        global VAL_SEED
+        fam, kn, hbc, level, ext, side, VAL_SEED = case
         fkey_fam = fam_key(fam, kn)
         font = new_font(_CFGV[hbc])
         gm = font.getReverseGlyphMap()
@@ -1306,10 +1310,14 @@ class SeqShaper:
     """Shapes a fixed, completely enumerated set of glyph sequences; results are kept as digests
     per (script, direction, feature set, batch) so that two fonts can be compared batch by batch."""
 
-    def __init__(self, alphabet, outsider, maxlen, plans, pair_cap=None):
+    def __init__(self, alphabet, outsider, maxlen, plans, pair_cap=None, rot=0):
         self.sep = outsider
         self.A = list(alphabet) + [outsider]
-        self.A2 = self.A if pair_cap is None or len(self.A) <= pair_cap else self.A[:pair_cap] + [outsider]
+        if pair_cap is None or len(self.A) <= pair_cap:
+            self.A2 = self.A
+        else:  # capped (quick tier, big alphabets): a window of pair_cap glyphs, rotated by the seed
+            k = (rot * pair_cap) % len(alphabet)
+            self.A2 = (list(alphabet) + list(alphabet))[k:k + pair_cap] + [outsider]
         self.maxlen = maxlen
         self.plans = plans  # [(script ot tag, direction, features dict)]
         self.batch = 4000
@@ -1437,7 +1445,7 @@ class Corpus(Unit):
     def cases(self, tier, seed):
         # heavy fonts first
         order = sorted(range(len(self.fonts)), key=lambda i: -sum(len(self.fonts[i][2].get(t, b"")) for t in LAYOUT_TAGS))
-        return [[i, self.fonts[i][1], tier, hbc] for i in order for hbc in HB_CFGS]
+        return [[i, self.fonts[i][1], tier, hbc, seed] for i in order for hbc in HB_CFGS]
 
     def bounds(self, tier, seed):
         kinds = collections.Counter(f[0] for f in self.fonts)
@@ -1472,7 +1480,7 @@ class Corpus(Unit):
         return out, info, font
 
     def check(self, case, rec):
-        idx, name, tier, hb_case = case
+        idx, name, tier, hb_case, seed = case
         kind, _name, tabs, ver = self.fonts[idx]
         quick = tier == "quick"
         rec.witness({"aots": "AOTS font", "fea": "feature-file build", "ttx": "ttx-compiled font", "binary": "other binary font"}[kind])
@@ -1510,7 +1518,7 @@ class Corpus(Unit):
                 if allon:
                     plans.append((sc, direction, allon))
         maxlen = 3 if len(alphabet) <= (12 if quick else 40) else 2
-        shaper = SeqShaper(alphabet, outsider, maxlen, plans, pair_cap=128 if quick else None)
+        shaper = SeqShaper(alphabet, outsider, maxlen, plans, pair_cap=128 if quick else None, rot=seed)
 
         def full(layout):
             t = {k: v for k, v in base.items() if k not in LAYOUT_TAGS}
